@@ -233,7 +233,7 @@ def subchecks(tier):
     w = {"ps": 1.0, "inf": 0.2, "priorities": 0.25, "batching": 0.3, "routing_objects": 0.3, "self_loops": 0.4, "cc_after": 0.2,
          "process_routing": 0.2, "discipline": 0.1}
     prof = S.Profile(ALLOWED, weights=w, required=("ps",), numeric="cont", max_nodes=3, max_classes=3, plans=("max_time",), horizon=(5.0, 14.0),
-                     budget=700, resumptions=(1, 1), excluded=("ps_priorities",))
+                     budget=700, resumptions=(1, 1), excluded=())
     return [
         system_subcheck("fluid", prof, lambda spec: [PSMonitor(spec)], nontrivial, classes=classes, log=True,
                         n={"quick": 7200, "thorough": 40000}, rule="records at PS nodes vs exact-rational fluid model; sharing monitor"),
